@@ -59,6 +59,7 @@ let op_of_tok t : fl op =
   | ["MS"; ax; v] -> HMutateS (nat_of_int (int_of_string ax), fl_of_tok v)
   | ["MO"; ax; v] -> HMutateO (nat_of_int (int_of_string ax), fl_of_tok v)
   | ["A"; ax; vs] -> Assign (nat_of_int (int_of_string ax), fls_of_tok vs)
+  | ["X"; a; b; c] -> AssignXYZ [fls_of_tok a; fls_of_tok b; fls_of_tok c]
   | ["P"; ax; vs] -> RecAssign (nat_of_int (int_of_string ax), fls_of_tok vs)
   | ["C"; s; o] -> ChangeScaling (opt_arr s, opt_arr o)
   | ["W"] -> Write
